@@ -46,7 +46,7 @@ theorem Bytes.cmp_gt_iff_lt (a b : Bytes) : Bytes.cmp a b = .gt ↔ Bytes.cmp b 
           have h4 : ¬ y > x := h1
           simp [h1, h2, h3, h4, ih]
 
-theorem Bytes.le_total (a b : Bytes) : (Bytes.le a b || Bytes.le b a) = true := by
+theorem Bytes.le_total_sortOrder (a b : Bytes) : (Bytes.le a b || Bytes.le b a) = true := by
   simp only [Bytes.le, Bool.or_eq_true, bne_iff_ne, ne_eq]
   by_cases h : Bytes.cmp a b = .gt
   · right
